@@ -7,7 +7,7 @@ from vf.check import SRC_ROOT
 from vf import objgen as G
 from contracts import parsing as K
 
-LEVEL = 'proof'
+LEVEL = 'other'
 NONRFC = '00000000-0000-0000-0000-000000000000'      # not an RFC 4122 variant: only the relaxed (interoperability) mode admits it
 UUID1 = '11111111-1111-1111-8111-111111111111'        # RFC 4122 but version 1: refused by STIX 2.0 rules, fine in 2.1
 
@@ -152,6 +152,31 @@ def run(chk):
                 return ('detect#library output recognised', f'{label}: serialized {type(o).__module__}.{type(o).__name__} parsed back as {type(back).__module__}.{type(back).__name__}', {})
             det = stix2.utils.detect_spec_version(json.loads(o.serialize()))
             if det != ver: return ('detect#library output recognised', f'{label}: detect_spec_version says {det}', {})
+        # a named version decides the class for every type and through parse_observable too: the result belongs to the named version or the input is refused
+        def named_cases():
+            for ver in ('2.0', '2.1'):
+                for label, cat, cls, kw in G.variants(ver, alts=(0,), with_all=False):
+                    if cat in ('objects', 'observables') and label.endswith(':minimal'):
+                        for w in ('2.0', '2.1'): yield (ver, label, cat, cls, kw, w)
+
+        def check_named(case):
+            ver, label, cat, cls, kw, w = case
+            try: o = G.build(label, cat, cls, kw, ver)
+            except Exception: return None
+            d = json.loads(o.serialize())
+            routes = []
+            if cat == 'objects' or ver == '2.1': routes += [('parse(dict)', lambda: stix2.parse(dict(d), version=w)), ('parse(object)', lambda: stix2.parse(o, version=w)), ('parse(text)', lambda: stix2.parse(o.serialize(), version=w))]
+            if cat == 'observables':
+                from props import _objects as O2
+                routes += [('parse_observable(dict)', lambda: stix2.parse_observable(dict(d), _valid_refs=O2.refs_for(d), version=w)),
+                           ('parse_observable(text)', lambda: stix2.parse_observable(o.serialize(), _valid_refs=O2.refs_for(d), version=w))]
+            for rn, fn in routes:
+                try: r = fn()
+                except (stix2.exceptions.STIXError, ValueError, TypeError): continue
+                if isinstance(r, dict): continue
+                if pkg_of(r) != w: return (f'named#{rn}', f'{label}: {rn} with version={w} returned {type(r).__module__}.{type(r).__name__}', {'label': label, 'version': w})
+        chk.bounded('a named version decides the class, for every type and entry form', list(named_cases()), check_named, classify=lambda c: (c[1], c[5]),
+                    bound='every registered object and observable type of both versions (minimal form) x both named versions x parse of dictionary / object / text and parse_observable')
         chk.bounded('library output of version V is recognised as V', list(lib_out()), check_out, classify=lambda c: c[1], bound='every registered object type of both versions and every 2.1 observable, minimal form')
     finally:
         shutil.rmtree(tmp, ignore_errors=True)
